@@ -131,10 +131,17 @@ def write_if_changed(path, text):
 
 
 def load_known():
+    """known_findings.json (committed, coordinator) merged with per-property known/Cxx.json files"""
+    out = []
     p = os.path.join(VERIF, "known_findings.json")
-    if not os.path.exists(p):
-        return []
-    return json.load(open(p)).get("findings", [])
+    if os.path.exists(p):
+        out += json.load(open(p)).get("findings", [])
+    kd = os.path.join(VERIF, "known")
+    if os.path.isdir(kd):
+        for f in sorted(os.listdir(kd)):
+            if f.endswith(".json"):
+                out += json.load(open(os.path.join(kd, f))).get("findings", [])
+    return out
 
 
 def sig_matches(entry_sig, sig):
